@@ -55,7 +55,10 @@ class Scenario:
         req = {"op": op, "id": rid}
         if session:
             req["session"] = "garden-" + session[1:]
-        if code is not None:
+        if code is not None and op == "load-file":
+            req["file"] = code
+            req["file-path"] = "/tmp/verif_nrepl_load.gdn"
+        elif code is not None:
             req["code"] = code
         self.steps.append((delay, req))
         self.abstract[rid] = {"ev": "send", "op": op, "id": rid, "session": session or "none", "script": script or []}
@@ -66,7 +69,7 @@ class Scenario:
         self.add(delay, "clone", prefix="c")
         return f"s{self.nsess}"
 
-    def eval(self, delay, session, name):
+    def eval(self, delay, session, name, op="eval"):
         if name == "R":      # isolation probe: a call of f9
             defined = self.defs.get(session, False) and session not in self.closed
             code, script = "f9()", ([{"k": "val"}] if defined else [{"k": "error"}])
@@ -74,7 +77,7 @@ class Scenario:
             code, script = VOCAB[name]
             if name == "D":
                 self.defs[session] = True
-        return self.add(delay, "eval", session, code, script, prefix="e")
+        return self.add(delay, op, session, code, script, prefix="e" if op == "eval" else "f")
 
 
 def gen_scenario(rnd, focus):
@@ -99,9 +102,20 @@ def gen_scenario(rnd, focus):
             else:
                 names += ["LP", "PLP", "PE"]
             name = rnd.choice(names)
-            sc.eval(d, s, name)
+            if name in ("L", "LP") and running_loop.get(s):
+                name = "V"            # one spinning eval per session at a time
+            op = "load-file" if name in ("V", "P", "PE", "X", "PX", "D") and rnd.random() < 0.3 else "eval"
+            sc.eval(d, s, name, op)
             if name in ("L", "LP"):
                 running_loop[s] = True
+            elif rnd.random() < 0.25:
+                # a pipeline: more requests written back to back behind this one, sometimes ended by a close
+                for _ in range(rnd.randint(1, 2)):
+                    sc.eval(0.0, s, rnd.choice(["V", "P", "X", "R"]), rnd.choice(["eval", "eval", "load-file"]))
+                if rnd.random() < 0.4 and s not in sc.closed:
+                    sc.add(0.0, "close", s, prefix="k")
+                    sc.closed.add(s)
+                    running_loop.pop(s, None)
         elif c < 0.80:
             sc.add(d, "interrupt", s, prefix="i")
             running_loop.pop(s, None)
@@ -154,6 +168,7 @@ def to_events(sc, events):
             out.append({"ev": "recv", "id": mid, "session": sess, "kind": "value", "text": "", "status": []})
         else:
             out.append({"ev": "recv", "id": mid, "session": sess, "kind": "other", "text": "", "status": []})
+    out.append({"ev": "end"})
     return out
 
 
@@ -162,7 +177,7 @@ def record(seed, focus, sched):
     sc = gen_scenario(rnd, focus)
     srv = nc.Server(sched_seed=(seed if sched else None), max_ms=25)
     try:
-        events, closed = nc.run_scenario(srv, sc.steps, quiet_s=0.8, max_s=25.0)
+        events, closed = nc.run_scenario(srv, sc.steps, quiet_s=0.8, max_s=40.0, tail_s=12.0)
     finally:
         srv.stop()
     return sc, events
